@@ -283,6 +283,18 @@ func c12CheckValue(c *kit.Case, in c12ValIn) {
 		if !bytes.Equal(got, want) {
 			c.Failf("%s(%d) = %x, reference (GP C.6) %x", e.name, in.V, got, want)
 		}
+		// the returned octets belong to the caller (callers append to them): overwriting them
+		// within their whole capacity must not change what a later call returns
+		full := got[:cap(got)]
+		for i := range full {
+			full[i] = 0xAA
+		}
+		for _, nb := range []uint64{in.V, in.V + 1, in.V + 2, in.V + 7, in.V - 1} {
+			g2, err2 := e.f(nb)
+			if w2 := c12RefEnc(nb); err2 != nil || !bytes.Equal(g2, w2) {
+				c.Failf("%s(%d) = %x (err %v) after the octets returned for %d were overwritten by their owner; reference %x", e.name, nb, g2, err2, in.V, w2)
+			}
+		}
 	}
 	known := map[string]string{}
 	// the encoding itself: must decode to V consuming all of it
